@@ -731,6 +731,16 @@ def D39():
     return holds, f"ValueOrList[int] with the handler {{int: double/halve}}: from_data([1,2]) -> {a!r}; into_data(list [2,4]) -> {b!r}; into_data(val 6) -> {c!r}"
 
 
+def N15():
+    import pane, datetime
+    class D(pane.PaneBase):
+        d: datetime.date
+    dt = datetime.datetime(2020, 1, 2, 3, 4, 5)
+    a = _outcome(lambda: D.from_data({'d': dt}))
+    b = _outcome(lambda: D(d=dt))
+    return a[0] == 'ok' and b[0] == 'ok' and a[1] == b[1], f"a datetime object for a date field: from_data -> {a[:2]!r}, constructor -> {b[:2]!r}"
+
+
 WITNESSES = {k: v for k, v in dict(globals()).items() if k[:1] in 'DNK' and k[1:].isdigit() and callable(v)}
 
 if __name__ == '__main__':
